@@ -161,7 +161,8 @@ def props_status(pid):
     for blk in re.split(r'\n(?=Closed under|Axioms:)', out):
         if blk.startswith('Axioms:'):
             for line in blk.split('\n')[1:]:
-                m = re.match(r'^([A-Za-z_][A-Za-z0-9_\.\']*)\s*:', line)
+                # a name starts in column 0; a long type continues on indented lines ("name\n  : type")
+                m = re.match(r'^([A-Za-z_][A-Za-z0-9_\.\']*)\s*(?::|$)', line)
                 if m:
                     axioms.append(m.group(1))
     res['axioms'] = sorted(set(axioms))
